@@ -192,7 +192,16 @@ class AstToSqlVisitor(visitor.NodeVisitor):
             right = f"({right})"
 
         #  'eq/ne null' should become 'IS (NOT) NULL' instead of '(!)= NULL'
-        if isinstance(node.right, ast.Null):
+        if isinstance(node.left, ast.Null) and isinstance(
+            node.comparator, (ast.Eq, ast.NotEq)
+        ):
+            # `null eq x`: SQL only knows `x IS NULL`, so swap the operands
+            left, right = right, left
+            if isinstance(node.comparator, ast.Eq):
+                comparator = "IS"
+            else:
+                comparator = "IS NOT"
+        elif isinstance(node.right, ast.Null):
             if isinstance(node.comparator, ast.Eq):
                 comparator = "IS"
             elif isinstance(node.comparator, ast.NotEq):
